@@ -14,6 +14,7 @@ mod rec_chordal;
 mod rec_consist;
 mod rec_kkt;
 mod rec_conestep;
+mod rec_decomp;
 mod replay_qdldl;
 mod replay_presolve;
 mod replay_update;
@@ -163,6 +164,31 @@ fn main() {
             write_lines(&args.get("out", "conestep.ndjson"), &lines);
             std::fs::write(args.get("meta", "meta.json"), meta.to_string()).unwrap();
             println!("{}", meta);
+        }
+        "decomp" => {
+            let (lines, cases, meta) = rec_decomp::record(args.num("seed", 1), args.num("count", 300) as usize);
+            write_lines(&args.get("out", "decomp.ndjson"), &lines);
+            write_lines(&args.get("cases", "decomp.cases.ndjson"), &cases);
+            std::fs::write(args.get("meta", "meta.json"), meta.to_string()).unwrap();
+            println!("{}", meta);
+        }
+        "decomp-replay" => {
+            let v = load_case(&args);
+            let p: problem::Problem = serde_json::from_value(v["problem"].clone()).unwrap();
+            let run = v["run"].as_u64().unwrap_or(0) as usize;
+            let lines = if v["kind"].as_u64().unwrap_or(0) == 2 { rec_decomp::solved_events(run, &p) } else { vec![rec_decomp::augmented_event(run, &p)] };
+            write_lines(&args.get("out", "decomp.ndjson"), &lines);
+        }
+        "decomp-debug" => {
+            let v = load_case(&args);
+            let p: problem::Problem = serde_json::from_value(v["problem"].clone()).unwrap();
+            use clarabel::solver::*;
+            let mut solver = DefaultSolver::new(&p.P.to_clarabel(), &p.q, &p.A.to_clarabel(), &p.b, &p.clarabel_cones(), p.settings());
+            solver.solve();
+            println!("z_aug {:?}", solver.variables.z);
+            println!("z_ret {:?}", solver.solution.z);
+            println!("s_aug {:?}", solver.variables.s);
+            println!("s_ret {:?}", solver.solution.s);
         }
         "csc" => {
             let (lines, meta) = rec_csc::record(args.num("seed", 1), args.get("tier", "quick") == "thorough");
